@@ -3,6 +3,8 @@ CONSTANTS
   Types = {"application/json", "text/plain", "application/xml"}
   NCallers = 2
   RecyclesWrappers = TRUE
+  SharedDefaults = FALSE
+  MaxOps = 4
   OnceIsNilCheck = FALSE
 INVARIANTS InvRetained
 CHECK_DEADLOCK FALSE
